@@ -541,28 +541,72 @@ func c20Peers(p *Prog, r *Report) {
 		}},
 	}
 	found := make([]bool, len(needs))
-	eachInstr(bn, func(in ssa.Instruction) {
-		ret, ok := in.(*ssa.Return)
-		if !ok {
-			return
-		}
-		isErr := false
-		for _, o := range origins(ret.Results[0]) {
-			if c, ok := o.(*ssa.Call); ok && (callIsFunc(c, "errors", "New") || callIsFunc(c, "fmt", "Errorf")) {
-				isErr = true
-			}
-		}
-		if !isErr {
-			return
-		}
-		cs := dominatingConds(ret.Block())
-		for i, n := range needs {
-			if n.match(cs) {
-				found[i] = true
-			}
-		}
-	})
 	var bad []string
+	// buildNodes and the private helpers it was split into; a helper's error must be passed on
+	scan := []*ssa.Function{bn}
+	for _, h := range withCallees(p, bn, 2) {
+		if h == bn || h.Parent() != nil || h.Pkg != bn.Pkg || !onlyCalledFrom(p, h, bn, 3) {
+			continue
+		}
+		res := h.Signature.Results()
+		if res.Len() == 0 || !types.Identical(res.At(res.Len()-1).Type(), types.Universe.Lookup("error").Type()) {
+			continue
+		}
+		scan = append(scan, h)
+		sites, _ := p.staticCallSites(h)
+		for _, cs := range sites {
+			passed := false
+			caller := cs.Parent()
+			eachInstr(caller, func(in ssa.Instruction) {
+				ret, ok := in.(*ssa.Return)
+				if !ok || len(ret.Results) == 0 {
+					return
+				}
+				for _, o := range origins(ret.Results[len(ret.Results)-1]) {
+					if ex, ok := o.(*ssa.Extract); ok && ex.Tuple == cs.(ssa.Value) {
+						passed = true
+					}
+					if o == cs.(ssa.Value) {
+						passed = true
+					}
+				}
+			})
+			if !passed {
+				bad = append(bad, fmt.Sprintf("%s: the error of %s is not returned by %s", p.Pos(cs.Pos()), h.Name(), caller.Name()))
+			}
+		}
+	}
+	for _, f := range scan {
+		eachInstr(f, func(in ssa.Instruction) {
+			ret, ok := in.(*ssa.Return)
+			if !ok || len(ret.Results) == 0 {
+				return
+			}
+			isErr := false
+			for _, o := range origins(ret.Results[len(ret.Results)-1]) {
+				if c, ok := o.(*ssa.Call); ok && (callIsFunc(c, "errors", "New") || callIsFunc(c, "fmt", "Errorf")) {
+					isErr = true
+				}
+			}
+			if !isErr {
+				return
+			}
+			cs := dominatingConds(ret.Block())
+			// conditions under which a helper is called count as well
+			if f != bn {
+				if sites, only := p.staticCallSites(f); only {
+					for _, site := range sites {
+						cs = append(cs, dominatingConds(site.Block())...)
+					}
+				}
+			}
+			for i, n := range needs {
+				if n.match(cs) {
+					found[i] = true
+				}
+			}
+		})
+	}
 	for i, n := range needs {
 		if !found[i] {
 			bad = append(bad, "no error return for: "+n.what)
